@@ -36,20 +36,8 @@ def affine_last_atom(e, ordn, seq):
     return o[1] - l[1]
 
 
-def run(chk, repo):
-    chk.clauses = [
-        'C06.a the per-transcript dispatch accumulator is drained on every path to loop exit '
-        '(last-iteration flush keyed on a sound ordinal, flush test reached on every iteration, '
-        'single-element consumption only when the flush fires every iteration)',
-        'C06.b each batch result is processed from that result and the peptide table only',
-        'C06.c records of a transcript are gathered from ALL pointers of the key and sorted; '
-        'filter_variants sorts its result; pointer registration appends',
-        'C06.d processing order is a sort by an injective rank',
-        'C06.e raw-file and index references parameterise the canonical pool identically (normalised exception, '
-        'same six parameters) and the index branch looks the pool up by those parameters',
-    ]
-    chk.not_decided = ['equality of peptide sets across hash seeds (needs commutativity of graph algorithms)',
-                       'index-vs-raw reference equality beyond parameter agreement (see C10/C12)']
+def rule_drain(chk, repo, rid='C06.a'):
+    """R-DRAIN on the transcript dispatch loop (shared with C05.f and C07.e)."""
     f = repo.func(ENTRY)
     chk.uses(f)
     fn = f.node
@@ -57,7 +45,7 @@ def run(chk, repo):
     rel = f.module.relpath
 
     # ------------------------------------------------------------------ C06.a
-    chk.rule('C06.a', 'R-DRAIN: accumulator filled in the transcript loop is flushed on every path to loop exit', 5)
+    chk.rule(rid, 'R-DRAIN: accumulator filled in the transcript loop is flushed on every path to loop exit', 5)
     loops = G.find_for(fn, iter_text='tx_sorted')
     if len(loops) != 1:
         from sa.model import AnalysisError
@@ -118,8 +106,8 @@ def run(chk, repo):
         guard_ifs = chain if guard_ifs is None else [a for a in guard_ifs if a in chain]
     flush_if = guard_ifs[-1] if guard_ifs else None     # outermost common if inside the loop
     if flush_if is None and not post_drain:
-        chk.ob('C06.a', 'flush guard', repo.loc(f, loop), False, 'no common flush test around the consumers and no post-loop drain', key=key0 + '::flush-guard')
-        return
+        chk.ob(rid, 'flush guard', repo.loc(f, loop), False, 'no common flush test around the consumers and no post-loop drain', key=key0 + '::flush-guard')
+        return None
     E = flush_if.test
     if isinstance(E, ast.Name):
         r = G.resolve_local(loop, E.id)
@@ -180,7 +168,7 @@ def run(chk, repo):
                                 and unparse(cfg.nodes[nid].ast.value) == '1']
                         if len(incs) != 1:
                             incs_ok = False
-                            chk.ob('C06.a', f'ordinal {nm} advanced exactly once per iteration', repo.loc(f, loop), False,
+                            chk.ob(rid, f'ordinal {nm} advanced exactly once per iteration', repo.loc(f, loop), False,
                                    f"ordinal '{nm}' is advanced {len(incs)} times on an iteration path, so the last-iteration "
                                    f"test '{unparse(d)}' is not keyed on the loop's ordinal",
                                    key=key0 + f'::ordinal-{nm}', path=p.describe(rel), fn=f.qual)
@@ -208,16 +196,16 @@ def run(chk, repo):
             nonlast_ok = False
             chk.note(f"flush conjunct without last-iteration disjunct: {unparse(cj)}")
     if post_drain:
-        chk.ob('C06.a', 'post-loop drain present', repo.loc(f, loop), True, fn=f.qual)
+        chk.ob(rid, 'post-loop drain present', repo.loc(f, loop), True, fn=f.qual)
     else:
-        chk.ob('C06.a', 'flush condition is implied by (last iteration and non-empty)', repo.loc(f, flush_if),
+        chk.ob(rid, 'flush condition is implied by (last iteration and non-empty)', repo.loc(f, flush_if),
                last_found and nonlast_ok,
                f"flush test '{unparse(E)}' has no sound last-iteration disjunct for every conjunct ({ord_detail}); "
                "the final partial batch is not drained and there is no post-loop drain",
                key=key0 + '::last-iteration-disjunct', fn=f.qual)
         # flush test reached on every iteration path
         bad = [p for p in paths if p.end_kind() in ('back', 'continue') and test_node not in p.node_ids()]
-        chk.ob('C06.a', 'flush test evaluated on every iteration path', repo.loc(f, flush_if), not bad,
+        chk.ob(rid, 'flush test evaluated on every iteration path', repo.loc(f, flush_if), not bad,
                'an iteration path returns to the loop head without evaluating the flush test'
                ' (a skipped transcript in last position leaves the batch undrained)',
                key=key0 + '::flush-test-bypassed', path=bad[0].describe(rel) if bad else None, fn=f.qual)
@@ -225,23 +213,45 @@ def run(chk, repo):
     for c in consumers:
         subs = [n for n in ast.walk(c) if isinstance(n, ast.Subscript) and unparse(n.value) == acc]
         if subs:
-            chk.ob('C06.a', f'single-element consumption {unparse(c)} only when flush fires every iteration',
+            chk.ob(rid, f'single-element consumption {unparse(c)} only when flush fires every iteration',
                    repo.loc(f, c), every_iter_idiom and THREADS is not None,
                    f"'{unparse(c)}' consumes one element of '{acc}' but the flush condition '{unparse(E)}' does not fire on "
                    "every iteration when the thread count is 1",
                    key=key0 + '::single-element-consumer', fn=f.qual)
         else:
-            chk.ob('C06.a', f'whole-batch consumption {unparse(c)[:60]}', repo.loc(f, c), True, fn=f.qual)
+            chk.ob(rid, f'whole-batch consumption {unparse(c)[:60]}', repo.loc(f, c), True, fn=f.qual)
     # reset after flush, inside the flush branch, after the consumers
     resets = [st for st in flush_if.body if isinstance(st, ast.Assign) and unparse(st.targets[0]) == acc
               and isinstance(st.value, (ast.List,)) and not st.value.elts]
-    chk.ob('C06.a', f'{acc} reset in the flush branch after consumption', repo.loc(f, flush_if),
+    chk.ob(rid, f'{acc} reset in the flush branch after consumption', repo.loc(f, flush_if),
            len(resets) == 1 and all(resets[0].lineno > c.lineno for c in consumers),
            f"accumulator '{acc}' is not reset exactly once at the end of the flush branch", key=key0 + '::reset', fn=f.qual)
     # nothing else drops elements of acc
     other = [w for w in G.writes_in(loop.body) if w[0] == acc and w[1] not in ('call:append',) and w[2] not in resets]
-    chk.ob('C06.a', f'no other write to {acc} in the loop', repo.loc(f, loop), not other,
+    chk.ob(rid, f'no other write to {acc} in the loop', repo.loc(f, loop), not other,
            f"unexpected write to '{acc}': {[norm_stmt(G_w[2]) for G_w in other]}", key=key0 + '::other-writes', fn=f.qual)
+
+    return dict(f=f, fn=fn, cfg=cfg, rel=rel, loop=loop, acc=acc, ordn=ordn, consumers=consumers)
+
+
+def run(chk, repo):
+    chk.clauses = [
+        'C06.a the per-transcript dispatch accumulator is drained on every path to loop exit '
+        '(last-iteration flush keyed on a sound ordinal, flush test reached on every iteration, '
+        'single-element consumption only when the flush fires every iteration)',
+        'C06.b each batch result is processed from that result and the peptide table only',
+        'C06.c records of a transcript are gathered from ALL pointers of the key and sorted; '
+        'filter_variants sorts its result; pointer registration appends',
+        'C06.d processing order is a sort by an injective rank',
+        'C06.e raw-file and index references parameterise the canonical pool identically (normalised exception, '
+        'same six parameters) and the index branch looks the pool up by those parameters',
+    ]
+    chk.not_decided = ['equality of peptide sets across hash seeds (needs commutativity of graph algorithms)',
+                       'index-vs-raw reference equality beyond parameter agreement (see C10/C12)']
+    d_ = rule_drain(chk, repo, 'C06.a')
+    if d_ is None:
+        return
+    f, fn, cfg, rel, loop, acc, ordn, consumers = (d_[k] for k in ('f', 'fn', 'cfg', 'rel', 'loop', 'acc', 'ordn', 'consumers'))
 
     # ------------------------------------------------------------------ C06.b
     chk.rule('C06.b', 'result processing depends only on the result and the table', 2)
@@ -368,3 +378,9 @@ def run(chk, repo):
     ok = len(lc) == 1 and [unparse(a) for a in lc[0].args] == ['cleavage_params']
     chk.ob('C06.e', 'index branch loads the pool by the same cleavage_params', repo.loc(lr, lc[0]) if lc else lr.where, ok,
            'the index branch does not look the canonical pool up by cleavage_params', key='cli.common:load_references::index-lookup', fn=lr.qual)
+
+    # ------------------------------------------------------------------ C06.f (shared with C02.c)
+    # a retry that mutates the shared CleavageParams leaks lowered limits to later transcripts only when the
+    # reducer runs in-process (--threads 1): the peptide set would depend on the thread count
+    from rules.C02 import retry_effects
+    retry_effects(chk, repo, 'C06.f')
